@@ -182,7 +182,7 @@ CHECKS = {
         "equivariance), by induction over histories; the translated class simulates the model step for step (Bridge/B_sequencer.v); "
         "bounded-exhaustive + random histories on the implementation.",
    technique="Coq proof (invariant by induction over operation lists) + py2coq class bridge (simulation) + bounded-exhaustive histories",
-   note=COMMON_NOTE + "The model abstracts a SequenceStart to its .value; the harness drives the sequencer with the real SequenceStart classes as well as with a duck-typed stub.", ref="8 (C13)"),
+   note=COMMON_NOTE + "The model abstracts a SequenceStart to its .value; the harness drives the sequencer with the real SequenceStart classes as well as with a duck-typed stub; events outside the two methods (a request that fails because the start raises, a copy.copy of the sequencer, a start object that changes its value) are exercised on the implementation and projected onto model histories by the harness (failed requests and copies dropped, a changed value = an update).", ref="8 (C13)"),
 }
 NA_REASON = "check not built yet (build in progress; see DESIGN.md section 12)"
 
